@@ -18,10 +18,8 @@ ENGINES = [
      "kind_free_text": "abstract interpreter for the Python subset in use, evaluating the repository's AST on representatives of finite abstract classes (letters/items as atoms, tainted lengths, heap identities); no flodym/numpy code is executed"},
     {"name": "fdv-labelled-tensor-model", "path": "fdv/npmodel.py", "serves_properties": ["C01", "C02", "C04", "C05", "C06", "C07", "C13", "C15"],
      "kind_free_text": "abstract NumPy: arrays as labelled tensors (axes = item tuples, entries = symbolic terms addressed by label, buffer identities); einsum / broadcasting / advanced indexing by NumPy's documented rules; a positional line-up of differently labelled axes is a violation"},
-    {"name": "fdv-units", "path": "fdv/units.py", "serves_properties": ["C03", "C09", "C10"],
-     "kind_free_text": "lattice-mode abstract interpretation with interval-indexed units of measure over stocks.py"},
-    {"name": "fdv-cfg-rules", "path": "fdv/cfg.py", "serves_properties": ["C08", "C11", "C12", "C16", "C17"],
-     "kind_free_text": "statement-level CFG, dominators, path-sensitive reachability over boolean flags; structural rules"},
+    {"name": "fdv-symbolic-grid-evaluator", "path": "fdv/syminterp.py", "serves_properties": ["C03", "C08", "C09", "C10", "C16", "C17"],
+     "kind_free_text": "the same abstract interpreter with NumPy interpreted over exact rational forms (fdv/symnum.py) on small concrete grids: every number symbolic, scipy distributions as uninterpreted function symbols, forward substitution exact; identities of the properties decided as polynomial identities; no solver, no path conditions"},
 ]
 
 
